@@ -113,5 +113,43 @@ func enumWide(tier string, shard, nshards int, yield func(HistCase) bool) (bool,
 			}
 		}
 	}
-	return false, "wide nodes: single nodes of 127/128/129/255/256/300 entries (bf 255, user keys of layer 0) x both formats x int and boundary-length string values, persisted, reloaded and modified"
+	// inner nodes with 126..129 entries (127..130 child slots, most of them nil): bf 16, that many keys of layer 1
+	// interleaved with a few keys of layer 0
+	for _, format := range core.Formats {
+		for _, n := range []int{126, 127, 128, 129} {
+			i++
+			if i%nshards != shard {
+				continue
+			}
+			layers := make([]uint8, n+12)
+			for k := range layers {
+				layers[k] = 1
+			}
+			var fill []core.Op
+			for k := 0; k < len(layers); k++ {
+				if k%11 == 3 || k == 0 {
+					layers[k] = 0 // a child below the top node (also in its first slot when k == 0)
+				}
+			}
+			if n%2 == 0 {
+				layers[0] = 1 // alternately: the first child slot stays nil
+			}
+			top := 0
+			for k := range layers {
+				if layers[k] == 1 {
+					top++
+				}
+			}
+			for k := 0; k < len(layers) && top >= 0; k++ {
+				fill = append(fill, core.Op{Kind: core.OpInsert, K: k, V: k % 4})
+			}
+			cfg := core.Config{BF: 16, Format: format, Key: core.KLK, Val: core.VInt, Cache: "none", Marshaler: "json", LKLayers: layers}
+			prog := []core.Op{{Kind: core.OpPersist}, {Kind: core.OpReload}, {Kind: core.OpIter}, {Kind: core.OpDeleteTop, K: 1}, {Kind: core.OpPersist}, {Kind: core.OpReload, N: 1}, {Kind: core.OpIter},
+				{Kind: core.OpDeleteTop, K: 0}, {Kind: core.OpDeleteTop, K: 0}, {Kind: core.OpPersist}, {Kind: core.OpReloadJSON, N: 2}, {Kind: core.OpIter}}
+			if !yield(HistCase{Cfg: cfg, Fill: fill, Prog: prog}) {
+				return false, ""
+			}
+		}
+	}
+	return false, "wide nodes: single nodes of 127/128/129/255/256/300 entries (bf 255, user keys of layer 0) x both formats x int and boundary-length string values, persisted, reloaded and modified; and inner (top) nodes of 124-130 entries with mostly nil child slots (bf 16), shrunk one top key at a time across the 128 boundary"
 }
